@@ -1,7 +1,7 @@
 (* Extraction of the strict slicing model together with the accessor model
    (Parse/Access.v): windows of every component and of every accessor result. *)
 From EP Require Import Base.Bytes Parse.Types Parse.Slices Parse.Cursor Parse.Access
-  Parse.LaxSlices Parse.LaxCursor Parse.LaxAccess.
+  Parse.LaxSlices Parse.LaxCursor Parse.LaxAccess Parse.PacketAccess.
 From Coq Require Import Extraction ExtrOcamlBasic.
 Extraction Language OCaml.
 Extraction "m_c01.ml"
@@ -10,4 +10,8 @@ Extraction "m_c01.ml"
   SlicedPacket.from_ip SlicedPacketA.windows SlicedPacketA.accessors win_of
   (* extend-c01b: the lax whole-packet entry points and their accessor model *)
   LaxSlicedPacket.from_ethernet LaxSlicedPacket.from_ether_type LaxSlicedPacket.from_ip
-  LaxSlicedPacketA.windows LaxSlicedPacketA.accessors LaxSlicedPacketA.vlan_ids.
+  LaxSlicedPacketA.windows LaxSlicedPacketA.accessors LaxSlicedPacketA.vlan_ids
+  (* round 3: the packet-level accessors of a STRICT result (Parse/PacketAccess.v) *)
+  SlicedPacketPA.payload_ether_type SlicedPacketPA.ether_payload SlicedPacketPA.ip_payload
+  SlicedPacketPA.is_ip_payload_fragmented SlicedPacketPA.vlan SlicedPacketPA.vlan_ids
+  SlicedPacketPA.packet_accessors SlicedPacketPA.packet_windows.
